@@ -50,6 +50,7 @@ Apply(c) ==
        [] c.k = "FabBlanks"   -> [plt EXCEPT ![cl].files[c.f][c.pos + 1].canon = FALSE]
        [] c.k = "HeadCut"     -> [plt EXCEPT ![cl].files[c.f][c.pos + 1] = [@ EXCEPT !.canon = FALSE, !.sh = -1]]
        [] c.k = "HeadPad"     -> [plt EXCEPT ![cl].files[c.f][c.pos + 1] = [@ EXCEPT !.canon = FALSE, !.sh = 1]]
+       [] c.k = "DataShift"   -> [plt EXCEPT ![cl].files[c.f][c.pos + 1] = [@ EXCEPT !.canon = FALSE, !.mv = 1]]
        [] c.k = "CellHIdx"    -> [plt EXCEPT ![cl].boxlines[c.b].idx = c.idx]
        [] c.k = "DropBoxLine" -> [plt EXCEPT ![cl].boxlines = CutAt(@, c.b - 1, 1)]
        [] c.k = "DropFodLine" -> [plt EXCEPT ![cl].fodlines = CutAt(@, c.b - 1, 1)]
@@ -82,6 +83,11 @@ Candidates ==
   \cup (IF K("HeadCut") THEN UNION {{[k |-> "HeadCut", f |-> f, pos |-> p] : p \in {p \in HPos(f) : Units(f)[p + 1].sh = 0}} : f \in ExistingFiles} ELSE {})
   \cup (IF K("HeadPad") THEN UNION {{[k |-> "HeadPad", f |-> f, pos |-> p] :
                                         p \in {p \in HPos(f) : Units(f)[p + 1].sh = 0 /\ \A q \in HPos(f) : q <= p}} : f \in ExistingFiles} ELSE {})
+  \* a few payload values moved from the end of one FAB into the FAB behind it (a removal and an insertion of less than a
+  \* header's length that cancel): only that FAB's header leaves its recorded position, the file keeps its length
+  \cup (IF K("DataShift") THEN UNION {{[k |-> "DataShift", f |-> f, pos |-> p] :
+                                          p \in {p \in HPos(f) : /\ p > 0 /\ Units(f)[p].k = "D" /\ p + 1 < Len(Units(f)) /\ Units(f)[p + 2].k = "D"
+                                                                  /\ \A q \in HPos(f) : Units(f)[q + 1].sh = 0 /\ Units(f)[q + 1].mv = 0}} : f \in ExistingFiles} ELSE {})
   \cup (IF K("CellHIdx") THEN UNION {{[k |-> "CellHIdx", b |-> b, idx |-> i] : i \in IdxChoices(Lc.boxlines[b].idx)} : b \in GoodBoxLines} ELSE {})
   \cup (IF K("DropBoxLine") THEN {[k |-> "DropBoxLine", b |-> b] : b \in DOMAIN Lc.boxlines} ELSE {})
   \cup (IF K("DropFodLine") THEN {[k |-> "DropFodLine", b |-> b] : b \in DOMAIN Lc.fodlines} ELSE {})
@@ -99,7 +105,7 @@ Candidates ==
                                                              /\ Lc.fodlines[b].off > 0 /\ Lc.fodlines[b].off < Len(Units(Lc.fodlines[b].file))
                                                              /\ Units(Lc.fodlines[b].file)[Lc.fodlines[b].off + 1].k = "H"
                                                              /\ Units(Lc.fodlines[b].file)[Lc.fodlines[b].off].k = "D"
-                                                             /\ \A q \in HPos(Lc.fodlines[b].file) : Units(Lc.fodlines[b].file)[q + 1].sh = 0}} ELSE {})
+                                                             /\ \A q \in HPos(Lc.fodlines[b].file) : Units(Lc.fodlines[b].file)[q + 1].sh = 0 /\ Units(Lc.fodlines[b].file)[q + 1].mv = 0}} ELSE {})
   \cup (IF K("BoxBound") THEN {[k |-> "BoxBound", b |-> b] : b \in {b \in DOMAIN Lc.bounds_ok : Lc.bounds_ok[b]}} ELSE {})
 
 Corrupt ==
@@ -108,7 +114,8 @@ Corrupt ==
         \* RemoveData must stay inside payload
         /\ (c.k = "RemoveData" => c.pos + c.u <= Len(Units(c.f)) /\ \A q \in c.pos..(c.pos + c.u - 1) : Units(c.f)[q + 1].k = "D")
         /\ (c.k = "FabNComp" => Units(c.f)[c.pos + 1].nc + c.d >= 1)
-        /\ (c.k \in {"HeadCut", "HeadPad"} => \A b \in GoodFodLines : Lc.fodlines[b].file = c.f => ~Lc.fodlines[b].early)
+        /\ (c.k \in {"HeadCut", "HeadPad", "DataShift"} => \A b \in GoodFodLines : Lc.fodlines[b].file = c.f => ~Lc.fodlines[b].early)
+        /\ (c.k \in {"HeadCut", "HeadPad"} => \A q \in HPos(c.f) : Units(c.f)[q + 1].mv = 0)
         /\ plt' = Apply(c)
         /\ applied' = Append(applied, c)
   /\ UNCHANGED <<base, cl, opts, lim, nofail, pc, lvl, verdict, raised>>
@@ -183,7 +190,7 @@ Scenario ==
               files |-> [f \in DOMAIN plt[cl].files |->
                            [i \in DOMAIN plt[cl].files[f] |->
                               IF plt[cl].files[f][i].k = "H"
-                              THEN <<plt[cl].files[f][i].idx, plt[cl].files[f][i].nc, plt[cl].files[f][i].canon, plt[cl].files[f][i].sh>>
+                              THEN <<plt[cl].files[f][i].idx, plt[cl].files[f][i].nc, plt[cl].files[f][i].canon, plt[cl].files[f][i].sh, plt[cl].files[f][i].mv>>
                               ELSE 0]]],
    fragile |-> IF ~Damaged(plt, lim) THEN {} ELSE
                (IF \A l \in 1..(lim + 1) : LevelGoodWith(plt[l], FALSE, TRUE, TRUE) THEN {"first-header"} ELSE {}) \cup
